@@ -87,6 +87,9 @@ func TestC05_SingleByteScalars(t *testing.T) {
 		if !bytes.Equal(got.UncompressedBytes(), []byte{0}) {
 			t.Fatalf("%s(0): got %x want the identity", entry, got.UncompressedBytes())
 		}
+		if !bytes.Equal(rcv.UncompressedBytes(), []byte{0}) {
+			t.Fatalf("%s(0): the receiver holds %x after the call, want the identity (callers read the receiver)", entry, rcv.UncompressedBytes())
+		}
 		useAsGroupElement(t, entry, got, new(big.Int))
 		stat.Case("single-byte", []string{"zero-scalar"}, true, []byte("zero|"+entry), func() any {
 			return map[string]any{"s": "0", "entry": entry}
@@ -202,6 +205,10 @@ func propBaseMult(t *rapid.T) {
 	}
 	if !bytes.Equal(got.UncompressedBytes(), want.Uncompressed()) {
 		t.Fatalf("%s(%x): got %x want %v", entry, s, got.UncompressedBytes(), want)
+	}
+	if entry != "PrivateKey.PublicKey" && !bytes.Equal(rcv.UncompressedBytes(), want.Uncompressed()) {
+		// the methods return their receiver; the library's own callers (verification) read the receiver
+		t.Fatalf("%s(%x): the receiver holds %x after the call, want %v", entry, s, rcv.UncompressedBytes(), want)
 	}
 	if lib.ScInt(ls).Cmp(s) != 0 {
 		t.Fatal("scalar argument modified")
